@@ -6,6 +6,7 @@ COMMON_OUTSIDE = ["big-endian hosts", "target_arch=arm default table choices", "
 PROPS = {
     "C01": dict(
         prefixes=["c01_"],
+        level_text="Bounded model checking of the real BufBitWriter code: one inductive step (write_bits / write_unary / flush / drop / into_inner) from an arbitrary representation-valid writer state with symbolic arguments, per (endianness, word) instantiation, against the canonical bit layout; a pass covers operation histories of any length for the listed instantiations within the stated argument bounds.",
         assumptions=[
             "write_bits: n <= 64 (documented precondition); v arbitrary incl. dirty high bits",
             "write_unary: x bounded per harness (x <= 3W); same loop beyond, more iterations",
@@ -16,7 +17,11 @@ PROPS = {
     ),
     "C17": dict(
         prefixes=["c17_"],
+        level_text="Symbolic check over the whole input type of each width (8..128 bits, pointer size): to_nat/to_int are mutually inverse and follow the documented formula; loop-free, so the bound is the type width itself.",
         assumptions=["none beyond the type width: inputs range over the whole type"],
         outside=[],
     ),
 }
+
+# properties not claimed, with the reason (kept current)
+NOT_APPLICABLE = {}
